@@ -170,6 +170,22 @@ impl L1 {
     pub fn advance(&self, dt: u64) {
         self.stack.timer.add(dt);
     }
+
+    /// getk of every key through a separate codec/handler on the same store: the encoded responses
+    pub fn dump(&self, keys: &[&[u8]]) -> Vec<u8> {
+        let handler = BinaryHandler::new(self.stack.memc.clone());
+        let mut codec = MemcacheBinaryCodec::new(u32::MAX);
+        let mut out = BytesMut::new();
+        for (i, k) in keys.iter().enumerate() {
+            let mut b = BytesMut::from(&crate::wire::get(crate::wire::GETK, k, i as u32).bytes()[..]);
+            if let Ok(Some(req)) = codec.decode(&mut b) {
+                if let Some(r) = handler.handle_request(req) {
+                    let _ = codec.encode(r, &mut out);
+                }
+            }
+        }
+        out.to_vec()
+    }
 }
 
 /// body_length of a decoded request header, read through the Debug representation-free way:
